@@ -94,10 +94,22 @@ def template_event(sess):
 def solve_event(sess, step, store):
     f = sess.get("solve", step.get("jit", True))
     p = MDL.params(step.get("mdl_params", sess.m), leaf=step.get("leaf", "float"))
+    ccv = []
+    try:
+        import lcm._verif as hooks
+
+        hooks.drain()
+    except Exception:  # noqa: BLE001
+        hooks = None
     V = f(p)
+    if hooks is not None and step.get("record_ccv"):
+        evs = [e for e in hooks.drain() if e["e"] == "solve_period"]
+        by = {int(e["period"]): e for e in evs}
+        if sorted(by) == list(range(len(V))):
+            ccv = [_flat(by[t]["ccv"]) for t in range(len(V))]
     store["V"] = V
     return {"e": "solve", "jit": bool(step.get("jit", True)), "n": len(V),
-            "shapes": [_shape_list(v) for v in V], "V": [_flat(v) for v in V]}
+            "shapes": [_shape_list(v) for v in V], "V": [_flat(v) for v in V], "ccv": ccv}
 
 
 def _init_arrays(m, init, int_init=False):
